@@ -210,8 +210,14 @@ form('opt-literal-invocation', { kf: 'D26', ops: ['trim'], nodemand: true }, F =
 form('opt-null-literal-base', { kf: 'D26', ops: ['trim'], nodemand: true }, F => `null?.trim().concat(${F.f()})`)
 form('opt-this-base', { ops: ['trim'], nodemand: true, needs: 'this' }, F => `this?.s${F.id()}.trim()`)
 form('opt-unlisted', { ops: [], instr: false }, F => `${F.loc()}?.charAt(0)`)
-form('opt-arg-opt', { ops: ['concat', 'trim'], kf: 'D17' }, F => `${F.loc()}?.concat(${F.loc()}?.trim())`)
-form('opt-nested-arg-guard', { ops: ['trim', 'concat'], kf: 'D17' }, F => { const o = `w.o${F.id()}`; return `${o}?.n1?.trim().concat(${o}?.s2.trim())` })
+// optional chains nested in the arguments / computed keys / callbacks of a lowered optional chain (formerly D17)
+form('opt-callback-with-inner-chain', { ops: ['trim', 'replace', 'substring'] }, F => `w.o${F.id()}?.s1.trim().replace('⟦', function (m) { return m + w.n${F.id()}?.substring(1) + w.o${F.id()}?.s2.trim() })`)
+form('opt-arrow-callback-with-inner-chain', { ops: ['concat', 'trim'] }, F => `${F.loc()}?.concat(w.cb${F.id()}((x) => ${F.loc()}?.trim()), w.n${F.id()}?.trim())`)
+form('opt-inner-chain-in-computed-key', { ops: ['trim'] }, F => `w.o${F.id()}?.[w.n${F.id()}?.trim() ?? 's1'].trim()`)
+form('opt-root-call-with-inner-chain-arg', { ops: ['trim'] }, F => `w.id${F.id()}(w.n${F.id()}?.trim())?.trim()`)
+form('opt-null-outer-skips-inner', { ops: ['concat', 'trim'] }, F => `w.n${F.id()}?.concat(w.o${F.id()}?.s1.trim(), ${F.f()})`)
+form('opt-arg-opt', { ops: ['concat', 'trim'] }, F => `${F.loc()}?.concat(${F.loc()}?.trim())`)
+form('opt-nested-arg-guard', { ops: ['trim', 'concat'] }, F => { const o = `w.o${F.id()}`; return `${o}?.n1?.trim().concat(${o}?.s2.trim())` })
 form('opt-shadowed-undefined', { ops: ['trim'], kf: 'D21', sloppy: true }, F => `(function (undefined) { return w.n${F.id()}?.trim() })(5)`)
 // bare call
 form('bare-allowed', { ops: ['aloneMethod'], nodemand: true }, F => { F.needAlone = true; return `aloneMethod(${F.s()}, ${F.f()})` })
@@ -388,7 +394,6 @@ function compatible (pl, fm) {
 // pairs that are witnesses of recorded known findings are only generated in one canonical placement
 function isKnownShape (pl, fm) {
   if (fm.kf) return true
-  if (pl.id === 'optional-call-arg' && /^opt-/.test(fm.id)) return true // nested optional chains (7-D17)
   return false
 }
 const CANONICAL_KF_PLACEMENT = 'return'
@@ -396,7 +401,6 @@ function knownPairs () {
   const out = []
   const ret = PLACEMENTS.find(p => p.id === CANONICAL_KF_PLACEMENT)
   for (const fm of FORMS) if (fm.kf) out.push([ret, fm])
-  out.push([PLACEMENTS.find(p => p.id === 'optional-call-arg'), FORMS.find(f => f.id === 'opt-null-call')])
   return out
 }
 
